@@ -322,7 +322,7 @@ func (s *VSim) frameLocked(part *vsPartition, from, limit int64, act *VSimFetchA
 		}
 	}
 	k := 0
-	for b := 0; b < maxB && start < end; b++ {
+	for nb < maxB && start < end {
 		size := 1
 		if len(act.BatchSizes) > 0 {
 			size = act.BatchSizes[k%len(act.BatchSizes)]
@@ -347,7 +347,17 @@ func (s *VSim) frameLocked(part *vsPartition, from, limit int64, act *VSimFetchA
 				break
 			}
 		}
-		recs := append([]VRec(nil), part.log[start:stop]...)
+		var recs []VRec
+		for _, r := range part.log[start:stop] {
+			if !part.holes[r.Offset] {
+				recs = append(recs, r)
+			}
+		}
+		if len(recs) == 0 { // everything in this range was compacted away
+			start = stop
+			continue
+		}
+		r0 = recs[0]
 		magic := act.Magic
 		if r0.Transactional || r0.Control || r0.PID >= 0 && magic < 2 {
 			magic = 2
